@@ -71,7 +71,9 @@ def parse(src: str, mode: str = "exec", py_version=None, verbose: bool = False, 
         elif mode == "file":
             # the file entry point: the text written as UTF-8 to a scratch file (removed afterwards).  The SAME path is
             # used for every file-mode parse of this process: anything keyed by the path sees different contents over time
-            tmp = f"/var/tmp/xv_scratch_{os.getpid()}.xsh"
+            import threading
+
+            tmp = f"/var/tmp/xv_scratch_{os.getpid()}_{threading.get_ident()}.xsh"
             with open(tmp, "w", encoding="utf-8", newline="") as fh:
                 fh.write(src)
             if verbose:
